@@ -10,7 +10,7 @@ CHECKS = {
  "C02": dict(technique="differential PBT: library tree vs reference parser tree, span equality, reparse law; thorough tier adds a coverage-guided atheris/libFuzzer campaign with the same oracle inside the target",
              text="Generated accepted texts are parsed under all flag combinations; the library tree (by slot walk and by to_dict) must equal the reference parser's tree including decoded string/number values and every node span; text[s:e] of every definition/value/type node must parse back to an equal node.",
              note="Trusted: vlib/ref/parser.py incl. BlockStringValue (goldens); acceptance itself is C01's subject.", ref="3/C02"),
- "C03": dict(technique="round-trip PBT print->parse with reference-parser explanation of differences; determinism and fixpoint; thorough tier adds a coverage-guided atheris/libFuzzer campaign with the round-trip oracle inside the target",
+ "C03": dict(technique="round-trip PBT print->parse with reference-parser explanation of differences; determinism and fixpoint; a fixed family of deep documents (40-330 levels, six shapes) the printer must print whenever the parser accepts them; thorough tier adds a coverage-guided atheris/libFuzzer campaign with the round-trip oracle inside the target",
              text="Generated accepted documents and values are printed with 14 indent settings through print_ast and ASTPrinter; printed text must be accepted, parse to an equal tree (modulo positions and description block flag), print deterministically and be a fixpoint.",
              note="Trusted: tree comparison walker; reference parser only used to attribute a difference to printer vs parser.", ref="3/C03"),
  "C04": dict(technique="differential PBT against an independent reference executor over generated schemas, operations, worlds and request histories",
@@ -19,7 +19,7 @@ CHECKS = {
  "C05": dict(technique="PBT with AST-level adversarial mutation; crash oracle + differential execution against reference executor and reference merge rule; plus a fixed family of deep documents (40-245 levels, six shapes)",
              text="Valid, mutated (20 labelled AST mutations) and grammar-random documents are validated with and without locations: any exception is a violation; documents the library validates are executed through both executor classes with generated accepted variables: no exception, no ambiguous response key (reference FieldsInSetCanMerge), data equal to the reference executor.",
              note="Trusted: vlib/ref/validate.py, vlib/ref/exec.py (goldens). Unspecified zones: __schema/__type sub-selections, missing root types, unset variables nested in literals, non-string literals for custom scalars.", ref="3/C05"),
- "C06": dict(technique="two-way differential PBT against a reference validator (26 June-2018 rules) + per-rule attribution + metamorphic verdict invariance",
+ "C06": dict(technique="two-way differential PBT against a reference validator (26 June-2018 rules) + per-rule attribution + metamorphic verdict invariance (nine transformations, and parsing with / without positions)",
              text="Valid-by-construction documents must validate; mutated documents are judged by a reference validator written from the specification and the verdicts must agree in both directions; a single broken rule must be reported by that rule's checker alone; nine validity-preserving transformations must not change the verdict.",
              note="Trusted: vlib/ref/validate.py (goldens), transformation code in vlib/gen/metamorph.py. A rule violation family the mutators never produce stays unexamined (per-rule counters in the evidence).", ref="3/C06"),
  "C07": dict(technique="PBT of argument coercion: conformance predicate, reference coercion model, rejection of structurally wrong values, literal-vs-variable route equivalence; exhaustive Int boundary grid (thorough)",
@@ -40,7 +40,7 @@ CHECKS = {
  "C10": dict(technique="PBT/fuzz of whole requests (truncation sweep, token and AST mutation, bad operation names and variable payloads, faulted worlds, every valid request repeated under refusing validators) with a response-format validity predicate and reference-executor error matching; thorough tier adds a coverage-guided atheris/libFuzzer campaign over raw request texts against a fixed schema",
              text="Every generated request through three entry points must return a GraphQLResult whose response is strict JSON in the specification's format (message, 1-based in-text locations, path, extensions), with data absent exactly after parse/validation failures, error paths pointing at nulls and, for executed requests, exactly one error per faulted position as computed by the reference executor.",
              note="Trusted: check_response in props/c10.py, reference parser for the parse verdict, library validation for the validation verdict (tied to the specification by C06).", ref="3/C10"),
- "C11": dict(technique="model-based PBT: schema spec -> SDL with drawn order / extension split -> build_schema -> extracted structure must equal the spec; 21 labelled invalid variants must raise a GraphQLError",
+ "C11": dict(technique="model-based PBT: schema spec -> SDL with drawn order / extension split -> build_schema -> extracted structure must equal the spec; 21 labelled invalid variants must raise a GraphQLError; 18 fixed documents whose input types close a cycle through a default value",
              text="Generated specs are rendered to SDL with a drawn definition order and members split over extend blocks placed anywhere; the built schema's observable structure (members in merged order, wrappers, coerced defaults, descriptions, deprecations, directives, roots, closedness) must equal the spec for every order, with ignore_extensions and additional_types; invalid documents must be rejected with the library's own error hierarchy.",
              note="Trusted: vlib/ref/schemastruct.py (expected/extract), vlib/gen/sdlsplit.py.", ref="3/C11"),
  "C12": dict(technique="round-trip PBT schema -> SDL -> schema with a model of the printed text, history sequences of print calls, and differential against a fresh interpreter",
@@ -52,7 +52,7 @@ CHECKS = {
  "C14": dict(technique="operation-sequence PBT (clone / visibility / camel-case / extend / fix_type_references on the source or earlier results, the source having served coercions before) with invariants after every step (closure, preservation, hidden elements vs queries / introspection / value coercion, source untouched)",
              text="After each drawn operation the result must be closed, hidden elements must be gone from types, references, introspection and queries, every untargeted element must keep its resolver objects, python names, defaults, descriptions and deprecations, and the source schema must keep its structure, closedness, SDL and probe-query answer.",
              note="Trusted: attrs()/snapshot()/check_result() in props/c14.py, vlib/ref/schemastruct.closed.", ref="3/C14"),
- "C15": dict(technique="model-based PBT: introspection result decoded into the schema-structure model and compared with an independent extraction; semantic default-value round trip; includeDeprecated, unknown-name __type and disable_introspection probes; directives over all 19 locations",
+ "C15": dict(technique="model-based PBT: introspection result decoded into the schema-structure model and compared with an independent extraction and with the declared type set (schemas built from SDL, from code with all types supplied, and from code with only the undiscoverable types supplied); semantic default-value round trip; includeDeprecated, unknown-name __type and disable_introspection probes; directives over all 19 locations",
              text="For generated schemas the standard introspection query's result must decode to exactly the structure extracted from schema.types/directives (kinds, members in order, wrappers, interfaces, possible types, directives, roots, deprecations); each defaultValue must parse as a GraphQL value and coerce to the declared default; includeDeprecated absent/false/true and disable_introspection behave as specified; thorough repeats it under every runtime configuration.",
              note="Trusted: decode()/expected_from_schema() in props/c15.py, vlib/ref/schemastruct.extract.", ref="3/C15"),
  "C18": dict(technique="model-based PBT: expected traversal from a generic walker over the reference parser tree, per-(parent kind, slot) attribution; edit plans (delete / replace / skip) with expected events and resulting tree; chained and dispatching visitors",
